@@ -29,6 +29,11 @@ class OutOfBounds(Exception):
     pass
 
 
+class Undefined(OutOfBounds):
+    """other undefined behaviour met on an interpreted path (a value-returning function that falls off its end)"""
+    pass
+
+
 class AV(object):
     """abstract integer"""
     __slots__ = ('vals', 'lo', 'hi', 'stride', 'deps')
@@ -228,6 +233,15 @@ class Cell(object):
         self.v = v
 
 
+class FnRef(object):
+    """value of a function pointer: hook(interp, fn, call_node, env) summarises the pointed-to function"""
+    def __init__(self, hook, name='fn'):
+        self.hook, self.name = hook, name
+
+    def __repr__(self):
+        return '&%s' % self.name
+
+
 class _Return(Exception):
     def __init__(self, v):
         self.v = v
@@ -250,6 +264,7 @@ class Interp(object):
         self.hooks = hooks or {}
         self.depth = 0
         self.events = []         # free-form log (calls to hooked functions)
+        self.cur_loc = None      # source position of the statement being interpreted (for reports)
 
     # ------------------------------------------------------------ helpers
     def inbyte(self, i):
@@ -299,7 +314,7 @@ class Interp(object):
         self.split_on(v.deps)
 
     def truth(self, v):
-        if isinstance(v, PV):
+        if isinstance(v, (PV, FnRef)):
             return True
         if isinstance(v, AV):
             if v.lo == 0 and v.hi == 0:
@@ -325,6 +340,9 @@ class Interp(object):
         try:
             self.exec_stmt(fn, fn.body, env)
             r = None
+            if fn.ret and fn.ret.strip() != 'void' and fn.kind not in ('ctor', 'dtor') and fn.short != 'main':
+                self.depth -= 1
+                raise Undefined('control reaches the end of %s, which returns %s, without a return value' % (fn.short, fn.ret.strip()))
         except _Return as e:
             r = self.wrap(e.v, fn.ret) if fn.ret else e.v
         self.depth -= 1
@@ -333,6 +351,7 @@ class Interp(object):
     # ------------------------------------------------------------ statements
     def exec_stmt(self, fn, i, env):
         self.steps += 1
+        self.cur_loc = fn.loc(i)
         if self.steps > self.max_steps:
             raise Unsupported('step budget exceeded')
         n = fn.N(i)
@@ -870,6 +889,14 @@ class Interp(object):
             r = hook(self, fn, i, env)
             if r is not NotImplemented:
                 return r
+        if k == 'CallExpr' and not n.get('callee') and not cn and n.get('ch'):
+            # indirect call: the callee expression must evaluate to a FnRef the rule supplied (a summary of the pointed-to function)
+            try:
+                tgt = self.rvalue(fn, n['ch'][0], env)
+            except Unsupported:
+                tgt = None
+            if isinstance(tgt, FnRef):
+                return tgt.hook(self, fn, i, env)
         if k == 'CXXOperatorCallExpr':
             op = n.get('op')
             objn = n['ch'][1]
@@ -1110,6 +1137,10 @@ def explore(P, run, boxes, max_boxes=200000):
         it = Interp(P, box)
         try:
             res = run(it)
+        except OutOfBounds as e:
+            if not hasattr(e, 'box'):
+                e.box, e.loc = list(box), it.cur_loc
+            raise
         except Split as s:
             idx = s.idx
             if not isinstance(idx, int):
